@@ -32,6 +32,18 @@ Streams (model = lean/JediModel/Model/Call.lean through Drivers/C11.lean)
                static/classmethod, nested) through get_names / get_context / infer / goto / help /
                get_signatures / complete; oracle = inspect.getdoc + inspect.signature of the
                executed object (props/c11_doc.py, fresh-interpreter workers)
+  oracle:history  edit-and-ask-again sessions (gen_history): 2-4 successive contents of ONE path whose called
+               definition changes (parameter list, kind of callable of the same call text) while the call
+               keeps its text (layouts: same position / moved / edited arguments / no path / another path),
+               a new Script(code, path=...) per step right after the other; every answer is judged on its own
+               by the per-request oracle (exec + inspect.signature + re-parse + sentinel calls + bracket);
+               a failure the same request shows without history goes to the ordinary streams, one that only
+               the history produces is reported with the shortest failing sub-history
+  sigcache     real helpers.cache_signatures behind real cache.signature_time_cache, called as
+               Script.get_signatures calls it, over such histories with a controlled clock (pauses around
+               the validity), one-line calls and cursors below the bracket line; inference stubbed by a
+               counter: answer / stored? / matched text of the key / size of the dictionary vs
+               `SigCache.request` (Model/SigCache.lean) folded over the same requests
   oracle:*     the property itself on the real code: exec the definition, inspect.signature,
                re-parse of to_string(), real calls with a sentinel argument, inspect.getdoc;
                oracle:kwforward = exactly the calls that bind against the reported signature of a
@@ -46,7 +58,7 @@ import json
 import common
 from common import short
 
-MODELS = ['Call', 'DocLit']
+MODELS = ['Call', 'DocLit', 'SigCache']
 MANIFEST = dict(
     text='Theorems over the model of _ActualTreeParamName.get_kind, _SignatureMixin.to_string, '
          'TreeSignature.get_param_names (process_params without forwarding and with **kwargs forwarded one level, '
@@ -65,10 +77,18 @@ MANIFEST = dict(
          'remaining cells (bare-name prefix, after *e), docstring assembly; which string token is a docstring: '
          'for every legal prefix x quote style x ANY body `_clean_docstring_literal` decides like Python (no b, no f '
          'in the prefix) and never looks at the body (docstring_literal_decision / _body_irrelevant, slice length '
-         'and letters read from safe_literal_eval by the translator). Tie: translator constants + '
+         'and letters read from safe_literal_eval by the translator). HISTORIES: model of the time cache in front of '
+         'the callee inference (helpers.cache_signatures key + cache.signature_time_cache + clear_time_caches in '
+         'Script.__init__, Model/SigCache.lean; kind of the second key component, statement shapes and validity read '
+         'from the source): for ALL sequences of requests of any Scripts / paths / contents / clock values every '
+         'answer is the callee inferred from the asking Script\'s own source (sig_history_every_answer_fresh, because '
+         'the key holds a match object), unkeyed requests are never cached under any key configuration '
+         '(sig_unkeyed_request_fresh), exact two-step characterisation of a text key (sig_text_key_second_answer) with '
+         'kernel-checked stale-answer witness (sig_text_key_stale_witness). Tie: translator constants + '
          'correspondence on real parso trees and real jedi objects; direct oracle executes the definition, '
          'uses inspect.signature, re-parses to_string(), performs real calls with sentinel arguments, '
-         'inspect.getdoc.',
+         'inspect.getdoc; stream oracle:history does so for every answer of edit-and-ask-again sessions on one path, '
+         'stream sigcache compares the cache model with the real functions under a controlled clock.',
     note='Modelled not verified: parso (the node list handed to _iter_arguments is checked per case), '
          'inference of the callee (which definition a call resolves to; for forwarding: which calls '
          '_iter_nodes_for_param finds and what they resolve to - checked per case by stream forward), process_params '
@@ -480,11 +500,11 @@ def find_funcdef(module, name):
     return None
 
 
-def real_case(src, line, col):
+def real_case(src, line, col, path=None):
     """everything the API shows for one cursor position; dict or {'exc': ...}"""
     import jedi
     try:
-        script = jedi.Script(src)
+        script = jedi.Script(src, path=path)
         sigs = script.get_signatures(line, col)
         if len(sigs) != 1:
             return {'nsigs': len(sigs)}
@@ -916,6 +936,283 @@ def run_oracle(ctx, c, objs):
                  case_key(c), expected=exp, observed={'bracket_start': real['bracket'], 'char': ch},
                  how='jedi.Script(source).get_signatures(line, column)[0].bracket_start')
     oracle_index(ctx, c, pysig, real)
+
+
+# ------------------------------------------------------------------ histories on one path
+
+# kinds whose call text is the same: an edit can turn one into the other without touching the call
+HIST_FAMILIES = [('f', ['function']), ('C().m', ['method', 'method_raw']),
+                 ('C.m', ['classmethod', 'staticmethod', 'unbound', 'classmethod_raw']),
+                 ('C', ['init', 'init_raw'])]
+HIST_TAIL = 'xv = 1\nxs = ()\nkws = {}\n'
+HIST_LAYOUTS = ['same-call', 'same-call', 'same-call', 'moved-call', 'edited-call', 'no-path', 'other-path']
+
+
+class _Recorder:
+    """stands in for ctx while one answer is judged by the per-request oracle: collects the failures"""
+    def __init__(self):
+        self.fails = []
+
+    def count(self, *a, **k):
+        pass
+
+    def fail(self, stream, what, case, expected=None, observed=None, kind='property', how=None):
+        self.fails.append({'stream': stream, 'what': what, 'expected': expected, 'observed': observed})
+        return True
+
+
+def gen_history(rng):
+    """an editor session on one file: successive contents whose called definition differs (parameter
+    list, kind of callable) while the call keeps its text - and, in layout same-call, its position.
+    Every step is a complete per-request case of the main stream (same generators)."""
+    callee, kinds = rng.choice(HIST_FAMILIES)
+    layout = rng.choice(HIST_LAYOUTS)
+    nver = rng.choice([2, 2, 3, 3, 4])
+    small = shapes(4)
+    vers = []
+    for _ in range(nver):
+        kind = rng.choice(kinds)
+        sig = rng.choice(sig_variants(rng.choice(small), rng, False))
+        feature = 'plain'
+        if kind.endswith('_raw'):
+            sig = raw_sig(sig, rng)
+            names = sig_names(py_bound(sig))
+        else:
+            names = sig_names(sig)
+        ret = 'int' if (not kind.startswith('init') and rng.random() < 0.25) else ''
+        def_src, callee_, fname, dsig, bound = definition(kind, sig, ret)
+        assert callee_ == callee
+        vers.append({'kind': kind, 'sig': sig, 'dsig': dsig, 'bound': bound, 'fname': fname, 'ret': ret,
+                     'def_src': def_src, 'names': names, 'feature': feature})
+    if nver >= 3 and rng.random() < 0.4:
+        vers[-1] = vers[0]          # the edit is undone
+    height = max(v['def_src'].count('\n') for v in vers)
+    pool = []
+    for v in vers:
+        pool += [n for n in v['names'] if n not in pool]
+    rng.shuffle(pool)
+
+    def one_call():
+        args = gen_args(rng, pool[:4], rng.choice([0, 1, 1, 2, 2, 3, 4]), wellformed=rng.random() < 0.85)
+        return rng.choice(cursor_cases(args, callee, rng, False))
+    call = one_call()
+    steps = []
+    for i, v in enumerate(vers):
+        pad = height - v['def_src'].count('\n')
+        if layout == 'moved-call':
+            pad += i
+        if layout == 'edited-call' and i:
+            call = one_call()
+        text, col, prev, cur, mode = call
+        pre = v['def_src'] + '\n' * pad + HIST_TAIL
+        c = {k: v[k] for k in ('kind', 'sig', 'dsig', 'bound', 'fname', 'ret', 'def_src', 'feature')}
+        c.update({'callee': callee, 'src': pre + text, 'line': pre.count('\n') + 1, 'col': col,
+                  'prev_specs': prev, 'cur': cur, 'mode': mode,
+                  'file': None if layout == 'no-path' else
+                  ('mod%d.py' % i if layout == 'other-path' else 'mod.py')})
+        steps.append(c)
+    return {'layout': layout, 'callee': callee, 'steps': steps}
+
+
+def _hist_dir():
+    import tempfile
+    return tempfile.mkdtemp(prefix='verif-c11-hist-', dir='/var/tmp')
+
+
+def hist_play(steps, upto=None):
+    """the real code on the steps in order, right after each other (well inside any time-based validity):
+    the content is written to the file, then a new Script(code, path=file) is asked. -> list of answers"""
+    import os
+    import shutil
+    d = _hist_dir()
+    out = []
+    try:
+        for c in steps[:upto]:
+            path = None
+            if c['file'] is not None:
+                path = os.path.join(d, c['file'])
+                with open(path, 'w', encoding='utf-8') as f:
+                    f.write(c['src'])
+            out.append(real_case(c['src'], c['line'], c['col'], path=path))
+    finally:
+        shutil.rmtree(d, ignore_errors=True)
+    return out
+
+
+def hist_judge(c, real):
+    """the per-request oracle (executed definition, inspect.signature, re-parse of to_string, real calls
+    with a sentinel, position of the parenthesis) on ONE answer -> list of failures"""
+    rec = _Recorder()
+    if 'exc' in real:
+        rec.fail('oracle:raised', 'get_signatures / Signature attribute raised inside a call', None, observed=real)
+    elif real['nsigs'] != 1:
+        rec.fail('oracle:reported', 'no (or more than one) signature reported inside the call parentheses', None,
+                 expected=1, observed={'signatures': real['nsigs']})
+    else:
+        cc = dict(c)
+        cc['real'] = real
+        run_oracle(rec, cc, {})
+    return rec.fails
+
+
+def _hist_public(steps, j):
+    return {'history': [{'file': c['file'], 'source': c['src'], 'line': c['line'], 'column': c['col']}
+                        for c in steps[:j + 1]],
+            'line': steps[j]['line'], 'column': steps[j]['col'], 'judged_step': j,
+            'definition': steps[j]['def_src'], 'callee': steps[j]['callee']}
+
+
+def _hist_sig(fails):
+    return sorted(json.dumps([f['stream'], f['expected'], f['observed']], sort_keys=True, default=repr) for f in fails)
+
+
+def stream_history(ctx, objs):
+    """C11 over HISTORIES: every answer of an edit-and-ask-again session on one path is judged on its
+    own against the source that Script was given (exec + inspect.signature + real calls).  A failure
+    that the same source shows without any history (no path) is a per-request matter and goes through
+    the ordinary oracle streams; a failure that only the history produces is reported here with the
+    shortest sub-history that still produces it."""
+    rng = ctx.subrng('history')
+    n = ctx.size(70, 1200)
+    reported = 0
+    for _ in range(n):
+        h = gen_history(rng)
+        steps = h['steps']
+        answers = hist_play(steps)
+        for j, (c, real) in enumerate(zip(steps, answers)):
+            changed = j > 0 and steps[j - 1]['def_src'] != c['def_src']
+            ctx.count('oracle:history', (c['src'], c['col'], j, h['layout']), nontrivial=changed,
+                      bucket='%s/%s/step=%d' % (h['layout'], h['callee'], j),
+                      sample={'layout': h['layout'], 'step': j, 'source': c['src'], 'line': c['line'],
+                              'column': c['col'], 'to_string': real.get('to_string'), 'index': real.get('index')})
+            fails = hist_judge(c, real)
+            if not fails:
+                continue
+            # the same request without history
+            alone = real_case(c['src'], c['line'], c['col'])
+            fails0 = hist_judge(c, alone)
+            if _hist_sig(fails0) == _hist_sig(fails):
+                ctx.count('oracle:history-per-request', None, nontrivial=False, bucket=fails[0]['stream'])
+                cc = dict(c)
+                cc['real'] = alone
+                if 'exc' not in alone and alone['nsigs'] == 1:
+                    run_oracle(ctx, cc, objs)       # judged (known findings included) like any single request
+                continue
+            if reported >= 3:
+                ctx.violations.append(None)
+                continue
+            reported += 1
+            # shortest sub-history ending in step j that still fails although the request alone does not
+            best = list(range(j + 1))
+            for i in range(j - 1, -1, -1):
+                r = hist_play([steps[i], steps[j]])[-1]
+                fr = hist_judge(c, r)
+                if fr and _hist_sig(fr) != _hist_sig(fails0):
+                    best, fails, real = [i, j], fr, r
+                    break
+            sub = [steps[i] for i in best]
+            f0 = fails[0]
+            ctx.fail('oracle:history',
+                     'the answer of get_signatures for the edited file does not mirror the definition in the '
+                     'source it was given (the same request without the earlier Script on that path is answered '
+                     'correctly): ' + f0['what'],
+                     dict(_hist_public(sub, len(sub) - 1), layout=h['layout']),
+                     expected=f0['expected'],
+                     observed={'failed_clause': f0['stream'], 'observed': f0['observed'],
+                               'to_string': real.get('to_string'), 'index': real.get('index'),
+                               'all_failed_clauses': [f['stream'] for f in fails],
+                               'same_request_without_history': {'to_string': alone.get('to_string'),
+                                                                'index': alone.get('index'),
+                                                                'failed_clauses': [f['stream'] for f in fails0]}},
+                     how='for each entry of input.history in order: write source to <tmpdir>/<file>, '
+                         'jedi.Script(source, path=<tmpdir>/<file>).get_signatures(line, column) (no pause in '
+                         'between); the last answer is compared with inspect.signature(callee) / real calls of '
+                         'the executed last source. ./check C11 --replay <this file>')
+
+
+class _FakeClock:
+    """stands in for the module `time` inside jedi.cache: the history decides what time it is"""
+    def __init__(self):
+        self.ms = 1000000
+
+    def time(self):
+        return self.ms / 1000.0
+
+
+# pauses between two requests, milliseconds (exact binary fractions of a second: `expiry > time.time()`
+# is then the same comparison in floats and in the model's integers); validity is 3000
+HIST_PAUSES = [0, 0, 125, 1500, 2875, 3000, 3125, 8000]
+
+
+def stream_sigcache(ctx, reqs, metas):
+    """the real helpers.cache_signatures behind the real cache.signature_time_cache (called the way
+    Script.get_signatures calls it: real parso bracket leaf, real context, real code_lines) over
+    histories on one path with a clock the history controls; the callee inference is replaced by a
+    counter (which Script computed the value).  vs `SigCache.call` folded over the same requests:
+    answer, whether an entry was stored, the matched text of its key, size of the dictionary."""
+    import os
+    import shutil
+    import jedi
+    from jedi import cache as jcache
+    from jedi.api import helpers
+    rng = ctx.subrng('sigcache')
+    n = ctx.size(60, 800)
+    dct = jcache._time_caches.get('call_signatures_validity')
+    if dct is None:
+        ctx.tie_broken('correspondence:sigcache', "jedi.cache._time_caches has no 'call_signatures_validity'")
+        return
+    clock = _FakeClock()
+    current = [0]
+    saved = (jcache.time, helpers.infer)
+    jcache.time = clock
+    helpers.infer = lambda *a, **k: current[0]
+    d = _hist_dir()
+    try:
+        for hno in range(n):
+            h = gen_history(rng)
+            dct.clear()
+            if rng.random() < 0.3:       # ask twice without an edit in between
+                k = rng.randrange(len(h['steps']))
+                h['steps'].insert(k, h['steps'][k])
+            variant = rng.choice(['one-line', 'one-line', 'cursor-below', 'cursor-below-paren'])
+            req_list, real_list = [], []
+            for j, c in enumerate(h['steps']):
+                src, line, col = c['src'], c['line'], c['col']
+                if variant != 'one-line':
+                    head = src[:src.rindex('\n') + 1] + c['callee'] + '('
+                    tail = '\n    ' + ('(1' if variant == 'cursor-below-paren' else 'xv')
+                    src, line, col = head + tail, line + 1, len(tail) - 1
+                path = os.path.join(d, 'h%d' % hno, c['file']) if c['file'] is not None else None
+                clock.ms += rng.choice(HIST_PAUSES)
+                current[0] = j
+                script = jedi.Script(src, path=path)
+                cd = helpers.get_signature_details(script._module_node, (line, col))
+                if cd is None:
+                    ctx.count('unmodelled', None, nontrivial=False, bucket='sigcache: no call details')
+                    continue
+                context = script._get_module_context().create_context(cd.bracket_leaf)
+                try:
+                    ans = helpers.cache_signatures(script._inference_state, context, cd.bracket_leaf,
+                                                   script._code_lines, (line, col))
+                except IndexError:
+                    ans = None
+                # the value `j` exists only if THIS call ran the (stubbed) inference and stored it
+                mine = [k for k, e in dct.items() if e[1] == j]
+                text = None
+                if mine:
+                    m = mine[0][1]
+                    text = m if isinstance(m, str) else m.group(0)
+                real_list.append({'answer': ans, 'stored': bool(mine), 'text': text, 'size': len(dct)})
+                req_list.append({'path': path, 'lines': list(script._code_lines), 'bracket': list(cd.bracket_leaf.start_pos),
+                                 'cursor': [line, col], 'scriptAt': clock.ms, 'now': clock.ms, 'fresh': j})
+            reqs.append({'op': 'sigcache', 'reqs': req_list})
+            metas.append(('sigcache', {'layout': h['layout'], 'variant': variant,
+                                       'requests': [{k: r[k] for k in ('path', 'lines', 'bracket', 'cursor', 'scriptAt', 'now')}
+                                                    for r in req_list]}, real_list))
+    finally:
+        jcache.time, helpers.infer = saved
+        dct.clear()
+        shutil.rmtree(d, ignore_errors=True)
 
 
 # ------------------------------------------------------------------ stream: kinds (invalid lists)
@@ -1590,6 +1887,8 @@ def run(ctx):
     objs = {}
     for c in cases:
         run_oracle(ctx, c, objs)
+    stream_history(ctx, objs)
+    stream_sigcache(ctx, reqs, metas)
     stream_probes(ctx)
     stream_star_args_probe(ctx)
     stream_forward(ctx, reqs, metas)
@@ -1610,6 +1909,20 @@ def run(ctx):
                 if real['params'] != ans['params'] or real['to_string'] != ans['to_string']:
                     ctx.tie_broken('correspondence:kinds', short({'case': meta, 'impl': [real['params'], real['to_string']],
                                                                   'model': ans}, 1500))
+            elif stream == 'sigcache':
+                for k, (r, m) in enumerate(zip(extra, ans)):
+                    stale = r['answer'] != k
+                    ctx.count('sigcache', json.dumps([meta['requests'][:k + 1]], sort_keys=True), nontrivial=k > 0,
+                              bucket='%s/%s/%s/%s' % (meta['layout'], meta['variant'],
+                                                      'stored' if r['stored'] else 'not-stored',
+                                                      'earlier-value' if stale else 'own-value'),
+                              sample={'requests': meta['requests'][:k + 1], 'impl': r})
+                    mm = {'answer': m['answer'], 'stored': m['stored'],
+                          'text': m['text'] if m['stored'] else None, 'size': m['size']}
+                    if r != mm:
+                        ctx.tie_broken('correspondence:sigcache',
+                                       short({'requests': meta['requests'][:k + 1], 'impl': r, 'model': mm}, 1500))
+                        break
             elif stream == 'pybind':
                 ctx.count('pybind', json.dumps(meta, sort_keys=True), nontrivial=True,
                           bucket='%s/%s' % (meta['cur'][0], 'none' if extra is None else 'bound'),
@@ -1687,7 +2000,35 @@ def run(ctx):
         '(streams oracle:doc, oracle:doclit); parso: get_doc_node hands the string leaf of the first statement',
         'single-line calls: `position[1] - name.start_pos[1]` is modelled as a natural number (cut)',
         'CPython call binding enters the theorems as `pyBind`; stream pybind compares it with real calls',
+        'histories: the value of the time cache is abstract (`fresh` = the callee inferred from the asking Script\'s '
+        'tree); that a freshly inferred callee mirrors the definition is the per-request part (all other streams); '
+        'the two time.time() calls of one wrapper call are one clock value; stream sigcache checks key, hit/miss and '
+        'dictionary against the real functions, stream oracle:history the end-to-end answers',
     ]
+
+
+def replay_history(payload):
+    inp = payload['input']
+    j = len(inp['history']) - 1
+    steps = [{'file': e['file'], 'src': e['source'], 'line': e.get('line', inp['line']),
+              'col': e.get('column', inp['column'])} for e in inp['history']]
+    answers = hist_play(steps)
+    for k, (e, r) in enumerate(zip(inp['history'], answers)):
+        print('step %d file=%r first line %r' % (k, e['file'], e['source'].split('\n')[0]))
+        print('   answer: %s' % short({x: r.get(x) for x in ('exc', 'site', 'nsigs', 'to_string', 'index', 'bracket')}, 400))
+    last = answers[-1]
+    obj, _ = exec_def(inp['definition'], inp['callee'])
+    pysig, pyparams = py_params(obj)
+    print('inspect.signature(%s) of the executed last source: %s' % (inp['callee'], pysig))
+    got = [(p['name'], p['kind']) for p in last['params']] if 'params' in last else None
+    alone = real_case(inp['history'][j]['source'], inp['line'], inp['column'])
+    print('same request without history: to_string=%r index=%r' % (alone.get('to_string'), alone.get('index')))
+    print('expected:', payload.get('expected'))
+    print('observed at record time:', payload.get('observed'))
+    bad = got != pyparams or {x: last.get(x) for x in ('to_string', 'index', 'bracket')} != \
+        {x: alone.get(x) for x in ('to_string', 'index', 'bracket')}
+    print('reproduced' if bad else 'not reproduced: the last answer mirrors the definition now')
+    return 1 if bad else 0
 
 
 def replay(ctx, payload):
@@ -1705,6 +2046,8 @@ def replay(ctx, payload):
                 print('  FAILS: %s\n    expected %r\n    observed %r' % (what, exp, obs))
         print('reproduced' if bad else 'not reproduced: the property holds on this input now')
         return 1 if bad else 0
+    if 'history' in inp:
+        return replay_history(payload)
     if 'line' in inp:
         for s in jedi.Script(inp['source']).get_signatures(inp['line'], inp['column']):
             print('index=%r bracket_start=%r to_string=%r params=%r' % (
